@@ -6,7 +6,7 @@ CONSTANTS
   NB = 2
   MaxDepth = 3
   UseSystematic = FALSE
-  Bug = "none"
+  Bug = "decode_clobbers"
   RandomPick = FALSE
   UsePreludes = FALSE
   WKey = 1
